@@ -203,6 +203,13 @@ def bind_case(args):
         lin = convlib.quiet(nobias, x) if kind == "conv" else None
     except Exception as ex:
         return [(kind, None, "unbound", "building / running the layer raised %s: %s" % (type(ex).__name__, str(ex)[:160]))]
+    return _compare(kind, layer, x, y, lin, graphs, D, N, opt)
+
+
+def _compare(kind, layer, x, y, lin, graphs, D, N, opt):
+    """execute the graph of every output block with the layer's own parameters and compare with the layer's output"""
+    import jax.numpy as jnp
+    out = []
     for (k, p), blk in y.items():
         cands = [g for g in graphs if g["kind"] == kind and (
             (kind == "conv" and g["c"]["ok"] == k and (g["c"]["p"] + g["c"]["fp"]) % 2 == p and g["c"]["mode"] == _mode_name(opt) and g["c"]["k"] == 0 and g["c"]["fk"] == k)
@@ -229,10 +236,11 @@ def bind_case(args):
             elif kind == "maxnormpool":
                 env = dict(params={}, eps=0.0, x=np.asarray(x[(k, p)], dtype=np.float64), k=k, patch=layer.patch_len)
             else:
-                env = dict(params={"bias": layer.bias.get((k, p))}, eps=0.0, x=np.zeros((1,) + (N,) * D), k=0,
+                N = tuple(blk.shape[1:1 + D])
+                env = dict(params={"bias": layer.bias.get((k, p))}, eps=0.0, x=np.zeros((1,) + N), k=0,
                            linear=np.asarray(lin[(k, p)], dtype=np.float64))
                 C = blk.shape[0]
-            env.update(D=D, C=C, spatial=(N,) * D)
+            env.update(D=D, C=C, spatial=N if isinstance(N, tuple) else (N,) * D)
             if kind == "conv":
                 # the graph's input / weights / mix nodes are the opaque linear part (decided by C11's exact replay): start at convc
                 gg = [dict(n) for n in g["g"]]
@@ -253,8 +261,10 @@ def bind_case(args):
     return out
 
 
+
+
 def _mode_name(opt):
-    return {"auto": "auto", "mean": "mean", "scalar": "scalar", "true": "auto", "false": "none"}[opt]
+    return {"auto": "auto", "mean": "mean", "scalar": "scalar", "true": "auto", "false": "none", True: "auto", False: "none"}[opt]
 
 
 def _exec_from_linear(gg, out, env):
@@ -307,3 +317,71 @@ def summarise(res):
     for d in out.values():
         d["bound"] = [t for t in d["bound"] if not any(u[0] == t for u in d["unbound"])]
     return out
+
+
+# ---------------------------------------------------------------------------------------------------------------------------
+# layer INSTANCES inside a (trained) model: C09
+
+def layer_instances(model):
+    import jax
+    import ginjax.ml as ml
+    kinds = (ml.ConvContract, ml.GroupNorm, ml.VectorNeuronNonlinear)
+    return [l for l in jax.tree_util.tree_leaves(model, is_leaf=lambda n: isinstance(n, kinds)) if isinstance(l, kinds)]
+
+
+def _instance_input(layer, D, seed):
+    """(kind, opt, signature with channel counts) of a layer instance, read off its parameters"""
+    import ginjax.ml as ml
+    if isinstance(layer, ml.ConvContract):
+        return "conv", layer.use_bias, tuple(((int(k), int(p)), int(c)) for (k, p), c in layer.input_keys)
+    if isinstance(layer, ml.GroupNorm):
+        sig = [((k, p), int(v.channels)) for (k, p), v in layer.vanilla_norm.items()]
+        sig += [((k, p), int(v.shape[0])) for (k, p), v in layer.scale.items() if k >= 1]
+        return "groupnorm", layer.groups, tuple(sorted(sig))
+    sig = [((0, 0), 2)] + [((k, p), int(w.shape[0])) for (k, p), w in layer.weights.items()]
+    return "vn", None, tuple(sorted(sig))
+
+
+def bind_instance(layer, D, graphs, seed):
+    """bind one layer instance AT ITS OWN (e.g. trained) parameter values; -> [(kind, type, status, detail)]"""
+    import copy
+    import jax.random as jr
+    import ginjax.geometric as geom
+    from harness import convlib
+    kind, opt, sig = _instance_input(layer, D, seed)
+    N = 4 if D == 2 else 2
+    try:
+        x = geom.MultiImage({t: 0.3 + jr.normal(jr.PRNGKey(seed + 100 + j), (c,) + (N,) * D + (D,) * t[0]) for j, (t, c) in enumerate(sig)}, D, True)
+        lin = None
+        if kind == "conv":
+            nobias = copy.copy(layer)
+            object.__setattr__(nobias, "use_bias", False)
+            y, lin = convlib.quiet(layer, x), convlib.quiet(nobias, x)
+        else:
+            y = layer(x)
+    except Exception as ex:
+        return [(kind, None, "unbound", "running the layer instance raised %s: %s" % (type(ex).__name__, str(ex)[:160]))]
+    return _compare(kind, layer, x, y, lin, graphs, D, N, opt)
+
+
+def instance_defect(layer, D, seed):
+    """largest relative defect of layer(g.x) vs g.layer(x) over the whole group, at the instance's own parameters, on inputs with a
+    non-zero spatial mean; -> (defect, block type, tolerance that applies)"""
+    import ginjax.geometric as geom
+    import jax.random as jr
+    from harness import convlib
+    kind, opt, sig = _instance_input(layer, D, seed)
+    N = 4 if D == 2 else 2
+    x = geom.MultiImage({t: 0.3 + jr.normal(jr.PRNGKey(seed + 300 + j), (c,) + (N,) * D + (D,) * t[0]) for j, (t, c) in enumerate(sig)}, D, True)
+    y = convlib.quiet(layer, x)
+    worst = (0.0, None, 1e-4)
+    for gg in geom.make_all_operators(D):
+        lhs, rhs = convlib.quiet(layer, x.times_group_element(gg)), y.times_group_element(gg)
+        for t in rhs.keys():
+            a, b = np.asarray(lhs[t], dtype=np.float64), np.asarray(rhs[t], dtype=np.float64)
+            den = max(np.linalg.norm(a), np.linalg.norm(b), 1e-2 * np.sqrt(a.size))
+            tol = 2e-3 if (kind == "groupnorm" and t[0] == 1) else 1e-4
+            d = float(np.linalg.norm(a - b) / den)
+            if d / tol > worst[0] / worst[2]:
+                worst = (d, list(t), tol)
+    return worst
